@@ -71,6 +71,7 @@ package casblob
 //@   requires f != nil && zstd != nil
 //@   modifies ioState()
 //@   ensures (result1 == nil) <==> (result0 != nil)
+//@   ensures (fcloseN == old(fcloseN) + 1 && fclosed == ref(f)) || (fcloseN == old(fcloseN) && result1 == nil && istype(result0, "*readCloserWrapper") && as(result0, "*readCloserWrapper").file == f)
 
 // The published header layout (C20): seven little-endian fields in this order and with these
 // widths: magic uint32, frame size uint32, uncompressed size int64, compression uint8,
